@@ -15,7 +15,8 @@ EXPLANATION = (
     "the one whose connect() is called; (6) every payload write in copy.rs is paired with incr_sent_bytes of the transferred count "
     "(including the drained read-ahead); (7) rule P over gc_thread/log_thread (in C05's scope) and the access log flushes per record."
     ' hand-off: no return of Drop for Context bypasses the push to gc_list.'
-    ' hand-over: ContextRefOps::enqueue waits for room in the bounded request queue (awaited send on every return; no try_send / send_timeout).')
+    ' hand-over: ContextRefOps::enqueue waits for room in the bounded request queue (awaited send on every return; no try_send / send_timeout).'
+    ' terminal-once: a failure recorded by a handshake helper is not recorded again by its caller.')
 RULE_TEXT = "instances = constructor sites, hand-off steps, return paths, state call sites, payload write sites"
 TRUSTED = ["one Drop per Context value (ownership)", "a single consumer of gc_list"]
 NOT_DECIDED = ["exactly-once under real concurrency (argued from ownership)", "log durability"]
@@ -70,8 +71,54 @@ def rule_handoff_waits(chk, prog, rule="hand-over"):
 
 
 
+
+def rule_single_terminal(chk, prog, rule="terminal-once"):
+    """A helper whose failure its caller records with on_error must not have recorded one itself on the failing path: a connection
+    gets exactly one terminal state (and, on the wire, exactly one failure reply).  For every local async function F that some
+    function G awaits and whose Err edge in G leads to ContextRefOps::on_error: inside F no failing exit (Err built here or `?`) is
+    reachable from an on_error call of F."""
+    from ..flow import option_tests, result_blocks
+    n = 0
+    for G in sorted(prog.fns.values(), key=lambda x: x.key):
+        if G.crate != "redproxy_rs" or not re.search(r"src/listeners/", G.file):
+            continue
+        one = [c for c in G.calls if re.search(r"context::ContextRefOps::on_error$", c.path or "")]
+        if not one:
+            continue
+        for c in G.calls:
+            lk = c.local_key()
+            if not lk or lk not in prog.fns or prog.fns[lk].crate != "redproxy_rs" or lk == G.key:
+                continue
+            aw = awaited(G, c)
+            if not aw or aw.get("result") is None:
+                continue
+            derived = set(flow_forward(G, [aw["result"]], [r"easy_error::ResultExt::context$", r"Result::<T, E>::map_err$", r"Try::branch$"])[0]) | {aw["result"]}
+            if aw.get("poll") is not None and aw["poll"].dest:
+                derived.add(aw["poll"].dest[0])
+            err_edges = [o["pos"] for o in option_tests(G, derived) if o["kind"] in ("Result", "Flow", "?")]
+            if not any(set(x.bb for x in one) & G.reach_from([tb]) for (sb, tb) in err_edges):
+                continue
+            F = prog.body_of(prog.fns[lk])
+            f_one = [x for x in F.calls if re.search(r"context::ContextRefOps::on_error$", x.path or "")]
+            if not f_one:
+                continue
+            n += 1
+            fails = set(result_blocks(F, "Err")) | set(x.bb for x in F.calls if re.search(r"FromResidual::from_residual$", x.path or ""))
+            bad = [x for x in f_one if fails & F.reach_from(F.succ[x.bb])]
+            ok = not bad
+            chk.instance(rule, "%s:%s" % (F.file, F.line), "%s: a failure it has recorded itself is not reported to %s again" % (F.path, G.path), ok,
+                         "%d on_error call(s), %d followed by a failing exit" % (len(f_one), len(bad)))
+            for x in bad[:1]:
+                chk.finding(rule, F.key, "recorded-twice", "", x.where(),
+                            "%s calls on_error and can then return Err, and its caller %s calls on_error for every Err: the connection gets two "
+                            "terminal states (the first error text is overwritten) and the client two failure replies" % (F.path, G.path))
+    chk.floor(rule, n, 1, "helpers whose failure the caller records")
+
+
+
 def run(chk, prog):
     rule_handoff_waits(chk, prog)
+    rule_single_terminal(chk, prog)
     # ---------------------------------------------------------------- (1)
     ok, d = anchors.check(prog, "context_single_ctor")
     chk.instance("ctor", "src/context.rs", "Context is built only in create_context, which registers it in alive", ok, d)
